@@ -28,7 +28,8 @@ REQUIRED_THEOREMS = [
     "global_error_le_sum_local", "euler_local_error_le_estimate",
     "implicitStep_cells", "cnStep_cells", "rkf45_amp5", "rkf45_quadrature", "adaptive_euler_global_error",
     "adaptive_euler_model_global_error", "adaptive_richardson_model_global_error", "ab2Stepper_persistent",
-    "ctl_constants_sane",
+    "ctl_constants_sane", "rkf45_local_error_le_estimate_plus_fifth", "adaptive_rkf45_model_global_error",
+    "rkf45_estimate_is_not_a_bound",
 ]
 
 # theorems of Props/C06.lean whose statement is about the constants of Generated/Tableau.lean:
@@ -1117,7 +1118,49 @@ def compare_adaptive(ctx, case, mode, run, mval, leg):
     return True
 
 
-def monitor_adaptive(ctx, case, mode, run, leg="monitor"):
+SYMPTOM_GLOBAL = "global-error-exceeds-steps-x-tolerance"
+SYMPTOM_GLOBAL_5TH = "global-error-exceeds-steps-x-tolerance-within-5th-order-remainder"
+
+
+def accepted_dts(case, run, mval=None, model_agrees=False):
+    """accepted step sizes per record of the real run: from the Float model trace of the same case
+    when the correspondence leg has tied it to this run, else from the recorded rate evaluations,
+    else None"""
+    if mval is not None and model_agrees:
+        per = [[unfbits(x[1]) for x in m["trace"] if x[3]] for m in mval["segments"]]
+        if case["via"] == "solve":
+            return [[h for seg in per for h in seg]]
+        return per
+    if run.get("calls") is not None and run["error"] is None and \
+            (case["via"] == "stepper" or len(case["segments"]) == 1):
+        bad, traces = parse_adaptive_calls(case, run)
+        if not bad:
+            return [[x[1] for x in tr if x[2]] for tr in traces]
+    return None
+
+
+def fifth_order_budget(case, dts_per_call):
+    """sum over the accepted steps of |R5(z_i) - exp(z_i)| * |u_i|_max (z_i = a*dt_i, u_i the state
+    before step i, advanced with the amplification R4 of the returned 4th-order state): the part of
+    the local error of an accepted Runge-Kutta-Fehlberg step that the acceptance test does not control
+    (Props/C06.lean: adaptive_rkf45_model_global_error).  Cumulative value after every call."""
+    import cmath
+
+    a = complex(*case["a"])
+    us = [complex(*u) for u in case["u0"]]
+    total, out = 0.0, []
+    for dts in dts_per_call:
+        for h in dts:
+            z = a * h
+            r4 = 1 + z + z ** 2 / 2 + z ** 3 / 6 + z ** 4 / 24 + z ** 5 / 104
+            r5 = 1 + z + z ** 2 / 2 + z ** 3 / 6 + z ** 4 / 24 + z ** 5 / 120 + z ** 6 / 2080
+            total += abs(r5 - cmath.exp(z)) * max(abs(u) for u in us)
+            us = [r4 * u for u in us]
+        out.append(total)
+    return out
+
+
+def monitor_adaptive(ctx, case, mode, run, leg="monitor", dts=None):
     fails = 0
     key = {"solver": case["solver"], "backend": "numpy" if mode == "numpy" else "numba", "stepping": "adaptive"}
     rec = {"case": case, "mode": mode}
@@ -1154,13 +1197,27 @@ def monitor_adaptive(ctx, case, mode, run, leg="monitor"):
             exact = [cmath.exp(a * (r["t"] - t0)) * complex(*u) for u in case["u0"]]
             err = max(abs(complex(*x) - e) for x, e in zip(r["state"], exact))
             bound = r["steps"] * case["tol"]
-            if not err <= bound * (1 + 1e-9) + 1e-13 * max(abs(complex(*u)) for u in case["u0"]) + 1e-300:
-                key["symptom"] = "global-error-exceeds-steps-x-tolerance"
+            slack = 1e-13 * max(abs(complex(*u)) for u in case["u0"]) + 1e-300
+            if not err <= bound * (1 + 1e-9) + slack:
+                # classify the excess: for Runge-Kutta-Fehlberg the acceptance test controls |5th - 4th|, the
+                # returned 4th-order state additionally carries the remainder of the 5th-order value
+                symptom, b5, what = SYMPTOM_GLOBAL, None, "global error exceeds steps*tolerance"
+                if case["solver"] == "runge-kutta" and dts is not None and j < len(dts) and \
+                        sum(len(d) for d in dts[: j + 1]) == r["steps"]:
+                    b5 = bound + fifth_order_budget(case, dts)[j]
+                    if err <= b5 * (1 + 1e-9) + slack:
+                        symptom = SYMPTOM_GLOBAL_5TH
+                        what = "global error exceeds steps*tolerance (within the 5th-order remainders of the accepted steps)"
+                    else:
+                        what = "global error exceeds steps*tolerance + 5th-order remainders of the accepted steps"
+                key["symptom"] = symptom
                 fail({"call": j, "global_error": err, "steps": r["steps"], "state": r["state"],
                       "ratio_to_bound": err / bound if bound else None},
-                     {"bound_steps_x_tol": bound, "exact": [[e.real, e.imag] for e in exact]},
-                     f"adaptive {case['solver']}: global error exceeds steps*tolerance")
+                     {"bound_steps_x_tol": bound, "bound_plus_5th_order_remainders": b5,
+                      "exact": [[e.real, e.imag] for e in exact]},
+                     f"adaptive {case['solver']}: {what}")
                 key.pop("symptom")
+                ctx.hist("global-error-excess", symptom)
                 break
             ctx.hist("global-error/bound", "%.0e" % (err / bound) if bound > 0 and err > 0 else "0")
     return fails
@@ -1223,6 +1280,21 @@ def aux_cases(case):
     return {"amp": {"case": amp, "modes": ["numpy", "nojit"]}, "quad": {"case": quad, "modes": ["numpy", "nojit"]}}
 
 
+# inputs on which the real code is known to miss the literal bound (adaptive Runge-Kutta: the accepted
+# estimate |5th - 4th| is not a bound of the error of the returned 4th-order state; known finding,
+# Props/C06.lean rkf45_estimate_is_not_a_bound).  They run first in every tier so that the finding is
+# reported by every run and not only when the random sample happens to contain such a step.
+CORPUS = [
+    {"kind": "adaptive", "solver": "runge-kutta", "flavour": "amp", "cplx": False, "a": [-0.9375, 0.0],
+     "b": [0.0, 0.0, 0.0, 0.0], "u0": [[0.9987481592594376, 0.0], [0.7377506285537212, 0.0]], "dt": 1.0,
+     "tol": 1e-6, "impl": "class", "via": "solve", "segments": [[0.0, 0.25]],
+     "corpus": "rkf45-estimate-is-not-a-bound/1"},
+    {"kind": "adaptive", "solver": "runge-kutta", "flavour": "amp", "cplx": False, "a": [-1.3, 0.0],
+     "b": [0.0, 0.0, 0.0, 0.0], "u0": [[1.0, 0.0]], "dt": 1.0, "tol": 1e-2, "impl": "class", "via": "stepper",
+     "segments": [[0.0, 1.0]], "corpus": "rkf45-estimate-is-not-a-bound/2"},
+]
+
+
 def generate(ctx):
     rng = ctx.rng
     n_fixed = ctx.budget(900, 9000)
@@ -1231,7 +1303,9 @@ def generate(ctx):
     n_jit_fixed = ctx.budget(66, 700)
     n_jit_adapt = ctx.budget(30, 260)
     n_jit_scipy = ctx.budget(4, 40)
-    tasks = []
+    tasks = [{"case": dict(c), "modes": ["numpy", "nojit"], "aux": {}} for c in CORPUS]
+    for c in CORPUS:
+        ctx.hist("corpus", c["corpus"])
     for i in range(n_fixed):
         solver = FIXED_SOLVERS[i % 5]
         case = gen_fixed(rng, solver, ctx.hist)
@@ -1256,7 +1330,7 @@ def generate(ctx):
         + pick("scipy", n_jit_scipy, ["scipy"])
     for i, t in enumerate(tasks):
         t["id"] = i
-    for t in jit:
+    for t in jit + tasks[: len(CORPUS)]:
         t["jit"] = True
     return tasks
 
@@ -1415,14 +1489,16 @@ def evaluate(ctx, tasks, runs, answers, index):
                 monitor_fixed(ctx, case, m, rr[m], aux)
         elif kind == "adaptive":
             for m in modes:
+                mval, agrees = None, False
                 if not case["cplx"] and have_model:
                     stt, val = answers[index[(tid, "numpy")]]
                     ctx.impl_traces += 1
                     if stt != "ok":
                         ctx.disagree("correspondence:" + leg, {"case": case, "mode": m}, f"model error: {val}", None)
                     else:
-                        compare_adaptive(ctx, case, m, rr[m], val, "correspondence:" + leg)
-                monitor_adaptive(ctx, case, m, rr[m])
+                        mval = val
+                        agrees = bool(compare_adaptive(ctx, case, m, rr[m], val, "correspondence:" + leg))
+                monitor_adaptive(ctx, case, m, rr[m], dts=accepted_dts(case, rr[m], mval, agrees))
         else:
             for m in modes:
                 monitor_scipy(ctx, case, m, rr[m])
@@ -1684,7 +1760,7 @@ def replay_worker(rep):
             aux = {tag: {"case": a["case"], "run": _exec_local(a["case"], m)} for tag, a in aux_cases(case).items()}
             monitor_fixed(c, case, m, run, aux)
         elif case["kind"] == "adaptive":
-            monitor_adaptive(c, case, m, run)
+            monitor_adaptive(c, case, m, run, dts=accepted_dts(case, run))
         else:
             monitor_scipy(c, case, m, run)
     monitor_agreement(c, case, runs)
